@@ -62,6 +62,12 @@ def _call(fn, basis, A, basis2=None):
     if fn == "overlap_screen":
         from gbasis.integrals.overlap import overlap_integral
         return overlap_integral(basis, transform=T, tol_screen=1e-300)
+    if fn in ("overlap_screen_str", "overlap_screen_bool", "overlap_screen_one"):
+        # malformed and limiting tolerances: a string, a bool, 1 (cutoff 0: everything off-centre is screened);
+        # tol_screen = 0 (log 0 = -inf) is outside the engine: infinities are not modelled
+        from gbasis.integrals.overlap import overlap_integral
+        tol = {"str": "1e-8", "bool": True, "one": 1.0}[fn.rsplit("_", 1)[1]]
+        return overlap_integral(basis, transform=T, tol_screen=tol)
     if fn == "overlap_asymm":
         from gbasis.integrals.overlap_asymm import overlap_integral_asymmetric
         return overlap_integral_asymmetric(basis, basis[:1], transform_one=T)
@@ -388,6 +394,8 @@ def cases(tier, seed=0):
         out.append(Pure(fn=fn, invalid="asym"))
     for fn in ("eval", "eval_deriv", "point_charge", "esp", "density"):
         out.append(Pure(fn=fn, invalid="shape"))
+    for fn in ("overlap_screen_str", "overlap_screen_bool", "overlap_screen_one"):
+        out.append(Pure(fn=fn))
     for l, K, M, t in [(0, 2, 1, "c"), (1, 2, 2, "c"), (2, 1, 1, "s")] + ([(2, 2, 2, "c"), (3, 1, 1, "c")] if tier == "thorough" else []):
         out.append(Renorm(l=l, K=K, M=M, type=t))
     for k in range(1, 9):
